@@ -19,6 +19,7 @@ import (
 	"strconv"
 	"strings"
 	"sync"
+	"time"
 
 	"verif/harness/core"
 	"verif/harness/g12lib"
@@ -59,6 +60,27 @@ func main() {
 		g12lib.ProbeMain(buildFixture)
 		return
 	}
+	if len(os.Args) > 2 && os.Args[1] == "count" {
+		for _, gn := range []string{"sweep", "hostile", "mutate", "collate"} {
+			g := makeGenerator(gn, 0, os.Args[2])
+			fmt.Println(gn, g.Len(), "classes all/star/core/mini", len(allClasses), len(starClasses), len(coreClasses), len(miniClasses), "charsets", len(charsets), "collations", len(collations))
+		}
+		return
+	}
+	if len(os.Args) > 4 && os.Args[1] == "show" { // show <tier> <gen> <i> [seed]
+		seed := int64(0)
+		if len(os.Args) > 5 {
+			seed, _ = strconv.ParseInt(os.Args[5], 10, 64)
+		}
+		g := makeGenerator(os.Args[3], seed, os.Args[2])
+		i, _ := strconv.Atoi(os.Args[4])
+		c := g.Case(i)
+		fmt.Printf("-- key=%s skip=%s\n", c.Key, c.Skip)
+		for _, q := range c.Stmts {
+			fmt.Println(q)
+		}
+		return
+	}
 	if ch := g12lib.ChildFromEnv(); ch != nil {
 		workerMain(ch)
 		return
@@ -95,6 +117,11 @@ func main() {
 	pool := &g12lib.Pool{Exe: exe, Dir: r.Scratch(), Workers: workers, Watchdog: wd,
 		Env: []string{"C10_SEED=" + fmt.Sprint(r.CaseSeed()), "C10_TIER=" + r.Tier}}
 
+	if os.Getenv("C10_PROGRESS") != "" {
+		pool.Progress = func(c g12lib.Chunk, code int, wall time.Duration, at g12lib.JournalEntry) {
+			fmt.Fprintf(os.Stderr, "chunk %s [%d,%d) solo=%v exit=%d wall=%.1fs at=%d/%d %s\n", c.Gen, c.Lo, c.Hi, c.Solo, code, wall.Seconds(), at.Case, at.Stmt, core.Clip(at.SQL, 160))
+		}
+	}
 	witness := func(gen string, i int, ev event) map[string]any {
 		return map[string]any{"generator": gen, "case": i, "stream": r.CaseSeed(), "tier": r.Tier, "statement_index": ev.Stmt, "statement": ev.SQL, "case_statements": ev.Stmts, "observed": ev.Detail,
 			"replay": "run the case statements in order on one session of a fresh engine with the fixture of cmd/c10/fixture.go (c10 probe < file)"}
